@@ -562,7 +562,15 @@ def gen_schema_list(rng):
     return out
 
 
+SHARED = []
+
+
+def canon_result(cfg):
+    return {sec: {k: repr(cfglib.canon_val(v)) for k, v in kv.items()} for sec, kv in cfg.items()}
+
+
 def validate_stage(chk, scratch, schemas, base):
+    SHARED.clear()
     rng = chk.rng
     n = 700 if chk.tier == "quick" else 8000
     cases = []  # (schema_asts, raw, bytes_keys, label)
@@ -588,6 +596,28 @@ def validate_stage(chk, scratch, schemas, base):
             continue
         raw = {sec: {k: scratch.subst(v) for k, v in kv.items()} for sec, kv in raw_t.items()}
         rec, out = run_validate(ss, raw, bk)
+        if label == "bundled" and out[0] == "ok":
+            # the SAME schema/type objects serve case after case (as the module-level core schemas do in a
+            # process that loads twice): the answer must equal that of freshly built objects
+            from mopidy import config as C_
+
+            if not SHARED:
+                SHARED.append(build_schemas(schemas))
+            rec_s = Recorder()
+            impl_raw = {sec: {k: as_impl_raw(v, (sec, k) in bk) for k, v in kv.items()} for sec, kv in raw.items()}
+            try:
+                with rec_s.active():
+                    cfg_s, err_s = C_._validate(impl_raw, SHARED[0])
+                same = (canon_result(cfg_s) == canon_result(out[1]) and {a: sorted(b) for a, b in err_s.items()}
+                        == {a: sorted(b) for a, b in out[2].items()})
+                what = "differs from the answer of freshly built schema objects"
+            except Exception as e:  # noqa: BLE001
+                same, what = False, f"raised {type(e).__name__}"
+            if not same:
+                chk.monitor_failure("schema_objects_stateless", {"call": "_validate"},
+                                    f"_validate on schema objects that already served earlier configs {what}",
+                                    {"stage": "validate", "schemas": "bundled", "raw": raw_t, "bytes_keys": [list(x) for x in bk],
+                                     "note": "needs the earlier cases of the run (shared objects)"})
         case = {"stage": "validate", "schemas": "bundled" if ss is schemas else [strip_fn(s) for s in ss],
                 "raw": raw_t, "bytes_keys": [list(x) for x in bk]}
         nerr = sum(len(v) for v in out[2].values()) if out[0] == "ok" else -1
@@ -697,6 +727,13 @@ def load_stage(chk, schemas):
             chosen = [i for i in range(len(ext_pool)) if rng.random() < 0.6]
             if chosen and rng.random() < 0.15:
                 chosen.append(chosen[0])           # the same schema passed twice
+        # deprecated keys set again and again: the same module-level core schema objects serve every load
+        if "override_texts" in stack and not stack.get("deprecated_added") and rng.random() < 0.6:
+            for sec_, key_ in rng.sample([("audio", "mixer_track"), ("audio", "visualizer"), ("logging", "debug_file"),
+                                          ("logging", "console_format"), ("http", "static_dir")], rng.randint(1, 3)):
+                stack["overrides"].append([sec_, key_, "old value"])
+                stack["override_texts"].append(f"{sec_}/{key_}=old value")
+            stack["deprecated_added"] = True
         case = {"stage": "load", "stack": {**stack, "ext_choice": chosen}}
         these = [ext_pool[i] for i in chosen]
         call_asts = core_asts + [ext_asts[i] for i in dict.fromkeys(chosen)]
